@@ -565,7 +565,20 @@ class TPAnalysis:
                 okn = bool(notif) and bool(enq) and E.index(notif[-1]) > E.index(enq[0])
                 xf = common.extra_field_fork(P, 'tulz::ThreadPool', TP_FIELDS)
                 if not okn and xf is not None:
-                    self.add('TP.5', None, f'row {row}: a worker is notified after the task is queued', xf.shortloc(), f'the notification is skipped on a test of `{(xf.text() or "")[:50]}`, a member outside the pool tables (whether "nobody is waiting" follows from it is not followed)')
+                    # where was the member sampled?  "nobody is waiting" can only be concluded in the critical section that publishes the task:
+                    # a worker that goes to sleep between an earlier sample and the push is never woken
+                    def mentions_extra(nd):
+                        return nd is not None and any(x.k == 'member' and x.field and (x.d.get('class') or '') == TP and x.name not in TP_FIELDS for x in nd.walk())
+                    reads_ = [i for i, e in enumerate(E) if e.node is not None and e.kind in ('decl', 'call', 'branch', 'write') and mentions_extra(e.node)]
+                    qi = E.index(enq[0]) if enq else None
+                    acq_ = max((i for i, e in enumerate(E) if e.kind == 'acquire' and e.obj == 'm_queueMutex' and qi is not None and i < qi), default=None)
+                    rel_ = min((i for i, e in enumerate(E) if e.kind == 'release' and e.obj == 'm_queueMutex' and qi is not None and i > qi), default=len(E))
+                    if reads_ and acq_ is not None and reads_[0] < acq_:
+                        self.add('TP.5', False, f'row {row}: a worker is notified after the task is queued', E[reads_[0]].site,
+                                 f'whether to notify is decided from `{(xf.text() or "")[:40]}`, sampled at {E[reads_[0]].site} before m_queueMutex is taken for the push: a worker that finds the queue empty and goes to sleep between the sample and the push '
+                                 'is never woken, the task stays queued (lost wake-up)')
+                    else:
+                        self.add('TP.5', None, f'row {row}: a worker is notified after the task is queued', xf.shortloc(), f'the notification is skipped on a test of `{(xf.text() or "")[:50]}`, a member outside the pool tables (whether "nobody is waiting" follows from it is not followed)')
                 else:
                     self.add('TP.5', okn, f'row {row}: a worker is notified after the task is queued', notif[-1].site if notif else site, '' if okn else 'no notification after the insertion: an idle worker never sees the task')
         # TP.8b: with no worker at all (a fresh pool, every worker expired, or the first start() after stop() emptied m_pool) the submitted
